@@ -862,7 +862,7 @@ def module_def_strings_are_nullable(ctx):
     ctx.info("R20.12: %d direct character reads of module-definition strings" % m)
 
 
-def merged_entities_keep_the_surviving_index(ctx):
+def merged_entities_keep_the_surviving_index(ctx, rid="R20.13"):
     """R20.13: when merge_from() finds that an incoming entity is one the database already has (`remap.in_map(i)`), the
     incoming index i is DISCARDED: nothing is stored under it.  On that branch every index this database keeps (its
     enumeration lists: _global_types, _all_types, ...) must be the surviving one, `remap.map_from(i)`, never i itself -
@@ -870,7 +870,7 @@ def merged_entities_keep_the_surviving_index(ctx):
     global would never be enumerated.  (Seed S9-C20: `_global_types.push_back(other_type_index)`.)"""
     from . import gates as G
     db = ctx.db
-    ctx.rule("R20.13", "in merge_from, behind `remap.in_map(i)` being true, no container member of the database receives i (only values derived from remap.map_from(i))")
+    ctx.rule(rid, "in merge_from, behind `remap.in_map(i)` being true, no container member of the database receives i (only values derived from remap.map_from(i))")
     f = db.fn("InterrogateDatabase::merge_from")
     n = 0
     for q in f.walk():
@@ -893,6 +893,6 @@ def merged_entities_keep_the_surviving_index(ctx):
                 continue
             n += 1
             uses_incoming = any(z.get("k") == "ref" and z.get("d") == d for a in c["a"] for z in walk(a))
-            ctx.ob("R20.13", "merge_from|%s.%s(%s)|surviving-index" % (tgt.split("::")[-1], callee_short(c), show(c["a"][0]).replace(" ", "")[:30]), not uses_incoming, f.loc(c),
+            ctx.ob(rid, "merge_from|%s.%s(%s)|surviving-index" % (tgt.split("::")[-1], callee_short(c), show(c["a"][0]).replace(" ", "")[:30]), not uses_incoming, f.loc(c),
                    "the list receives the surviving index" if not uses_incoming else "the list receives `%s`, the incoming index that was just mapped away" % r.get("n"))
-    ctx.floor("R20.13", "lists extended on a merge branch of merge_from", n, 1)
+    ctx.floor(rid, "lists extended on a merge branch of merge_from", n, 1)
